@@ -21,9 +21,23 @@ Inductive expr :=
 | ENot (a : expr)                       (* ! *)
 | ENeg (a : expr)                       (* unary minus *)
 | EProj (a : expr) (s : sig)            (* a | "type"   (a | x.type is resolved by the printer) *)
-| ECond (c v : expr).                   (* c : v *)
+| ECond (c v : expr)                    (* c : v *)
+| ESel (b : nat) (s : sig)              (* bundle["type"]  (b: the b-th declaration, a Bundle) *)
+| EAny (o : cop) (b : nat) (c : expr)   (* any(bundle) CMP c *)
+| EAll (o : cop) (b : nat) (c : expr).  (* all(bundle) CMP c *)
+
+(* bundle-valued expressions *)
+Inductive bexpr :=
+| BLit (members : list (sig * expr))    (* { ("t1", e1), ("t2", e2), ... } *)
+| BRef (i : nat)                        (* an earlier Bundle declaration *)
+| BMerge (a b : bexpr)                  (* { b1, b2 }: both on one wire *)
+| BArith (o : aop) (b : bexpr) (x : expr)                 (* bundle OP scalar *)
+| BFilter (o : cop) (b : bexpr) (x : expr) (k : option Z) (* (bundle CMP x) : bundle   /   (bundle CMP x) : k *)
+| BGate (c : expr) (b : bexpr).         (* (cond) : bundle *)
 
 Inductive decl :=
 | DIn (ty : option sig) (v : var)       (* Signal a = ("type", k);  exposed as an input: ranges over int32 *)
 | DSig (e : expr)                       (* Signal x = e; *)
-| DInt (e : expr).                      (* int x = e;    *)
+| DInt (e : expr)                       (* int x = e;    *)
+| DBundle (b : bexpr)                   (* Bundle x = b; *)
+| DSource (content : list (sig * var)). (* Entity with .output: its contents range over all values *)
